@@ -98,6 +98,26 @@ def scan_forbidden():
     return hits
 
 
+def run_coqchk():
+    """Thorough tier: re-check every compiled file of the development with the independent checker, once per source hash.
+    Returns (ok, summary)."""
+    h = hashlib.sha1()
+    for f in coq_sources():
+        h.update(open(f, 'rb').read())
+    cache = os.path.join(BUILD, 'coqchk-%s.txt' % h.hexdigest()[:16])
+    with Lock('coqchk'):
+        if not os.path.exists(cache):
+            mods = ['HC.Props.' + os.path.basename(f)[:-2] for f in coq_sources() if '/Props/' in f]
+            rc, out, err = sh(['coqchk', '-silent', '-o', '-Q', 'theories', 'HC'] + mods, cwd=COQ, timeout=6000)
+            txt = out + err
+            i = txt.find('CONTEXT SUMMARY')
+            summary = ' '.join(txt[i:].split()) if i >= 0 else txt[-800:]
+            open(cache, 'w').write('%d\n%s\n' % (rc, summary))
+        lines = open(cache).read().split('\n', 1)
+    ok = lines[0].strip() == '0' and 'Axioms: <none>' in lines[1]
+    return ok, 'coqchk -silent -o over all Props modules and their dependencies: ' + lines[1].strip()[:700]
+
+
 STMT = re.compile(r'^\s*(Theorem|Lemma|Corollary|Example|Fact|Remark|Proposition)\s+([A-Za-z0-9_\']+)', re.M)
 
 
@@ -1161,6 +1181,15 @@ def run_check(pid, tier, seed):
     build_ok, build_log, make_cmd = build_coq(clean=(tier == 'thorough' and os.environ.get('VERIF_NO_CLEAN') != '1'))
     forbidden = scan_forbidden()
     pinfo = check_props(pid, build_ok)
+    chk_ok, chk_summary = (True, 'coqchk: thorough tier only')
+    if tier == 'thorough' and build_ok:
+        try:
+            chk_ok, chk_summary = run_coqchk()
+        except Exception as ex:
+            chk_ok, chk_summary = False, 'coqchk could not be run: %s' % ex
+        if not chk_ok:
+            pinfo['ok'] = False
+            pinfo['log'] = (pinfo.get('log') or '') + '\n' + chk_summary
     mok, mlog = build_model() if build_ok else (False, 'coq build failed')
     hok, hlog, _ = build_harness()
     if not hok:
@@ -1222,7 +1251,7 @@ def run_check(pid, tier, seed):
     cov = dict(
         obligations=pinfo['obligations'], discharged=pinfo['discharged'],
         checker_cmd=pinfo['checker_cmd'] or make_cmd,
-        trusted_base=TRUSTED_BASE + ['Print Assumptions of Props/%s.v this run: %s' % (pid, ' | '.join(pinfo['assumptions']) or 'n/a')],
+        trusted_base=TRUSTED_BASE + ['Print Assumptions of Props/%s.v this run: %s' % (pid, ' | '.join(pinfo['assumptions']) or 'n/a'), chk_summary],
         theorems=pinfo['theorems'],
         evaluations=res['evaluations'], distinct_nontrivial=len(res['nontrivial']),
         rule=spec.get('rule', ''), samples=res['samples'][:6] or [dict(note='no cases ran')],
